@@ -4,7 +4,7 @@ package quic
 //vx:entry Harness_C07_callsite
 //vx:param all maxdepth=3000
 //vx:param quick packets=3
-//vx:param thorough packets=4
+//vx:param thorough packets=5
 //vx:reach Harness_C07_callsite C07.cs.processed C07.cs.duplicate-dropped C07.cs.long-header C07.cs.short-header C07.cs.duplicate-long C07.cs.duplicate-short
 
 import (
